@@ -332,6 +332,10 @@ impl GameMon {
                 prelude = pre;
                 Policy::Seek
             }
+            Policy2::RandomAfterPrelude(pre) => {
+                prelude = pre;
+                Policy::Random
+            }
             Policy2::Random => Policy::Random,
             Policy2::Seek => Policy::Seek,
             Policy2::Avoid => Policy::Avoid,
@@ -477,9 +481,24 @@ impl GameMon {
                 self.try_move(&mut run, m, rho, &legal, rep);
                 continue;
             }
-            let m = if (run.m.nmoves as usize) < prelude.len() && legal.contains(&prelude[run.m.nmoves as usize]) { prelude[run.m.nmoves as usize] } else { choose_move(rng, &run.m, &legal, pol) };
+            let in_prelude = (run.m.nmoves as usize) < prelude.len();
+            let m = if in_prelude && legal.contains(&prelude[run.m.nmoves as usize]) { prelude[run.m.nmoves as usize] } else { choose_move(rng, &run.m, &legal, pol) };
             prev_legal = legal.clone();
             self.try_move(&mut run, m, rho, &legal, rep);
+            // right after a prelude (and now and then elsewhere) every pseudo-legal but illegal move is offered:
+            // each must be refused and leave the game untouched
+            if self.c10 && !run.dead && ((in_prelude && run.m.nmoves as usize == prelude.len()) || rng.chance(1, 12)) {
+                let rho2 = run.m.result();
+                let legal2 = run.m.cur.legal_moves();
+                let ps: Vec<RMove> = run.m.cur.pseudo().into_iter().filter(|x| !legal2.contains(x)).collect();
+                for x in ps.into_iter().take(12) {
+                    rep.count("ev_pseudo_illegal_offered");
+                    self.try_move(&mut run, x, rho2, &legal2, rep);
+                    if run.dead {
+                        break;
+                    }
+                }
+            }
         }
         rep.max("max_actions_in_a_game", run.m.log.len() as u64);
         rep.max("max_clock_reached", run.m.clock as u64);
@@ -636,6 +655,7 @@ pub enum Policy2 {
     AvoidBreak,
     /// play the given moves first, then seek repetitions
     SeekAfterPrelude(Vec<RMove>),
+    RandomAfterPrelude(Vec<RMove>),
 }
 
 pub fn run_game(ctx: &Ctx, rep: &mut Report, c10: bool, c11: bool) {
@@ -670,7 +690,23 @@ pub fn run_game(ctx: &Ctx, rep: &mut Report, c10: bool, c11: bool) {
                 _ => (synth::synth_ep(rng).pos, Policy2::Seek, 50),
             }
         } else {
-            match rng.below(8) {
+            match rng.below(11) {
+                8 | 9 => {
+                    // directed scenarios (e.p. exposure, pins, castling matrix ...): play the prelude, then random
+                    let id = rng.below(synth::N_SCEN);
+                    match synth::scenario_retry(rng, id) {
+                        Some(st) => (st.pos, Policy2::RandomAfterPrelude(st.prelude), 30),
+                        None => (RPos::startpos(), Policy2::Random, 60),
+                    }
+                }
+                10 => {
+                    // stalemates / only-move positions with many men on the board
+                    let id = *rng.pick(&[17usize, 18, 17]);
+                    match synth::scenario_retry(rng, id) {
+                        Some(st) => (st.pos, Policy2::RandomAfterPrelude(st.prelude), 12),
+                        None => (RPos::startpos(), Policy2::Random, 60),
+                    }
+                }
                 0 => (RPos::startpos(), Policy2::Random, 120),
                 1 => (corpus[rng.below(corpus.len())].clone(), Policy2::Random, 100),
                 2 => (synth::synth(rng, Density::Sparse), Policy2::Random, 80),
